@@ -232,11 +232,14 @@ def monotone_runs(p, steps, with_ones):
                     grows_right = e < n - 1 and p[e + 1] - p[e] == d
                     if not grows_left and not grows_right:
                         runs.append((s, e))
-    if with_ones:
-        covered = {i for s, e in runs for i in range(s, e + 1)}
-        runs.extend((i, i) for i in range(n) if i not in covered)
     runs.sort()
-    return runs
+    return with_singletons(n, runs) if with_ones else runs
+
+
+def with_singletons(n, runs):
+    """Add (i, i) for every position 0..n-1 lying in none of the given windows; sorted by start."""
+    covered = {i for s, e in runs for i in range(s, e + 1)}
+    return sorted(list(runs) + [(i, i) for i in range(n) if i not in covered])
 
 
 def contract(p, steps):
